@@ -18,13 +18,24 @@ class ControlledPool:
     def __init__(self, *a, **k):
         pass
 
+    touched = None      # when a list: per pool call, per task (writes, reads) seen by the audit hook
+
     def _run(self, f, it):
         tasks = list(it)
         n = len(tasks)
         perm = ControlledPool.start(n) if ControlledPool.start else list(range(n))
         res = [None] * n
+        per_task = [None] * n
         for i in perm:
-            res[i] = f(tasks[i])
+            if ControlledPool.touched is not None:
+                from . import audit
+                with audit.record() as ev:
+                    res[i] = f(tasks[i])
+                per_task[i] = (audit.writes(ev), audit.reads(ev))
+            else:
+                res[i] = f(tasks[i])
+        if ControlledPool.touched is not None:
+            ControlledPool.touched.append((getattr(f, "__name__", str(f)), per_task))
         ControlledPool.log.append((getattr(f, "__name__", str(f)), n))
         return res
 
